@@ -9,6 +9,8 @@ import (
 	"testing"
 
 	"github.com/AliceO2Group/Control/common/controlmode"
+	"github.com/AliceO2Group/Control/common/utils/uid"
+	"github.com/AliceO2Group/Control/core/controlcommands"
 	"github.com/AliceO2Group/Control/executor/executorcmd"
 	pb "github.com/AliceO2Group/Control/executor/protos"
 	"github.com/sirupsen/logrus"
@@ -328,6 +330,7 @@ func TestCommitExhaustive(t *testing.T) {
 		{"direct", controlmode.DIRECT, directTable, []string{"STANDBY", "CONFIGURED", "RUNNING", "ERROR", "DONE"}},
 	}
 	total, nontrivial := 0, 0
+	envId := uid.New()
 	classes := map[string]int{}
 	var samples []interface{}
 	seenViolations := map[string]bool{}
@@ -342,7 +345,17 @@ func TestCommitExhaustive(t *testing.T) {
 					n := enumerate(func(choose func() int) {
 						rg.dev.reset(devState, choose)
 						c := &commitCase{Mode: m.name, Event: ev, Src: src, Dst: dstOf[ev], Device: devState}
-						report, err := rg.client.Transitioner.Commit(ev, src, dstOf[ev], map[string]string{"k": "v"})
+						// as the executor does it: the command object decoded from the core's message, given the task's transitioner,
+						// is committed and the response is prepared from what it returned
+						cmd := &executorcmd.ExecutorCommand_Transition{
+							MesosCommand_Transition: *controlcommands.NewMesosCommand_Transition(envId, nil, src, ev, dstOf[ev], nil),
+							Transitioner:            rg.client.Transitioner,
+						}
+						cmd.Arguments = map[string]string{"k": "v"}
+						report, err := cmd.Commit()
+						if resp := cmd.PrepareResponse(err, report, "verif-task"); resp.CurrentState != report || (err == nil) != (resp.Err() == nil) {
+							t.Errorf("PrepareResponse(%v, %q) carries state %q error %v", err, report, resp.CurrentState, resp.Err())
+						}
 						// the response the executor would send carries exactly this state and error
 						c.Steps = append([]step(nil), rg.dev.steps...)
 						c.Report, c.DevEnd = report, rg.dev.state
